@@ -170,6 +170,7 @@ def mk_tamper(where, response, pi):
             else:
                 receiver, rid_use = b, None
             m = incoming(outer)
+            genuine = outer
             orig_inner = (1, b"hi") if not response else (69, b"yo")
             data = m.opt.oscore if where == "option" else m.payload
             strong = True
@@ -206,6 +207,14 @@ def mk_tamper(where, response, pi):
                 assert verdict == "protection-error", "tampered message was accepted"
             elif verdict == "message":
                 assert (int(got.code), got.payload) == orig_inner
+            if verdict == "protection-error":
+                # a rejected manipulation leaves no trace: the genuine message (same partial IV) still unprotects afterwards
+                try:
+                    got2, _ = receiver.unprotect(incoming(genuine), rid_use)
+                except o.ProtectionInvalid:
+                    got2 = None
+                assert got2 is not None and (int(got2.code), got2.payload) == orig_inner, \
+                    "after a rejected manipulated copy the genuine message is no longer accepted (state updated before verification)"
             assert not reach, "reach"
         return h
     return make
